@@ -298,6 +298,43 @@ def run(ctx):
                         src += "def h%d():\n    log('h%d')\n    return dds.keep('/n%d', h%d)\n\n" % (i, i, i, i + 1)
                 src += "def top():\n    log('top')\n    return %s\n" % ("str(h1()).upper()" if via == "callee" else "h1()")
                 run_case(w, src, lambda m: dds.eval(m.top), "EVAL_IN_EVAL", "nested eval depth %d via %s" % (depth, via))
+        # a nested eval that the analysis cannot see (it sits in a library that is not accepted, or dds.eval is handed over as a value):
+        # it is found when it runs, and is rejected with the same code - also when the user code around it has the usual best-effort
+        # handler (except Exception), which must not turn the rejection into a result. (Found at run time: the clause 'nothing
+        # runs' cannot apply here, only the outcome is compared.)
+        libname = w.unique("c11lib")
+        w.write_module(libname, "import dds\n\ndef run_nested(f):\n    return dds.eval(f)\n\ndef guarded(runner, f):\n    try:\n        return runner(f)\n"
+                                "    except Exception:\n        return None\n\ndef attempt(f):\n    try:\n        return f()\n    except Exception as e:\n        return None\n", accept=False)
+        for guard in ("none", "except_exception", "library_guard", "eval_as_value", "finally"):
+            src = HEAD + "import %s as lib\n\ndef inner():\n    log('inner')\n    return 'i'\n\n" % libname
+            body = {"none": "    r = lib.run_nested(inner)\n",
+                    "except_exception": "    try:\n        r = lib.run_nested(inner)\n    except Exception:\n        r = None\n",
+                    "library_guard": "    r = lib.guarded(lib.run_nested, inner)\n",
+                    "eval_as_value": "    r = lib.guarded(dds.eval, inner)\n",
+                    "finally": "    r = None\n    try:\n        r = lib.run_nested(inner)\n    except (ValueError, RuntimeError, KeyError):\n        r = 'handled'\n    finally:\n        log('cleanup')\n"}[guard]
+            src += "def step():\n    log('step')\n" + body + "    return (41, r)\n\ndef top():\n    log('top')\n    return dds.keep('/rt/step', step)\n"
+            modname = w.unique("c11m")
+            mod = w.write_module(modname, src)
+            execlog.clear()
+            try:
+                v = dds.eval(mod.top)
+                out = ("returned", repr(v))
+            except DDSException as e:
+                out = ("dds_error", e.error_code.name if e.error_code is not None else None)
+            except BaseException as e:
+                out = ("exc", type(e).__name__ + ": " + str(e)[:80])
+            ws.reset_dds_state()
+            committed = dict(inner._paths)
+            res.evaluations += 1
+            res.count("nested_eval_found_at_run_time")
+            res.nontrivial("nested eval found at run time, handler %s" % guard)
+            if out != ("dds_error", "EVAL_IN_EVAL") or "/rt/step" in committed:
+                res.violations.append({
+                    "what": "an evaluation that nests dds.eval inside a library that is not accepted (handler around it: %s) is not rejected with EVAL_IN_EVAL: "
+                            "outcome %s, paths committed %s" % (guard, out, sorted(committed)),
+                    "input": {"case": "nested eval found at run time", "handler": guard, "source": src}, "kf": None})
+            inner._cache.clear()
+            inner._paths.clear()
         res.sample({"program": src, "expected": "EVAL_IN_EVAL"})
     res.rule = ("unit: every ordered list of <= 2 (quick: sampled 3) distinct paths over segments {f,g,fg,x} (depth <= 3) plus %d random lists "
                 "of 3..6 paths; end to end: path sets x call orders x placements {flat, helper, inside a kept function}; cycles of length "
